@@ -71,9 +71,17 @@ pub fn format_all(directory: &Option<PathBuf>, args: &CliArguments) -> Result<Fo
     // Walk through all the files in the directory
     let entries = WalkDir::new(directory)
         .into_iter()
-        .filter_entry(|e| e.depth() == 0 || !is_hidden(e))
-        .filter_map(Result::ok);
+        .filter_entry(|e| e.depth() == 0 || !is_hidden(e));
     for entry in entries {
+        let entry = match entry {
+            Ok(entry) => entry,
+            Err(e) => {
+                // e.g. a directory that cannot be opened or read; keep walking the rest
+                error!("{e}");
+                summary.error_count += 1;
+                continue;
+            }
+        };
         if !(entry.file_type().is_file() && entry.path().extension() == Some("typ".as_ref())) {
             continue;
         }
